@@ -328,10 +328,12 @@ def overlength_rule(prog, rule):
                     rr = strip(v.get("init")) if v.get("init") is not None else None
                     if isinstance(rr, dict) and rr.get("k") == "un" and rr.get("op") == "*" and (path(strip(rr.get("e"))) or "").endswith("next_char"):
                         loads.append((b.id, i))
-            if a.get("k") == "asg" and a.get("op") == "+=" and (path(strip(a.get("lhs"))) or "").endswith("->column"):
-                if const(a.get("rhs")) == 1:
+            if a.get("k") == "asg" and a.get("op") in ("+=", "-=") and (path(strip(a.get("lhs"))) or "").endswith("->column") \
+                    and const(a.get("rhs")) is not None:
+                delta = const(a.get("rhs")) * (1 if a["op"] == "+=" else -1)
+                if delta == 1:
                     incs.append((b.id, i))
-                elif const(a.get("rhs")) == -1 and "SCAN_UCHAR" not in (a.get("ms") or []):
+                elif delta == -1 and "SCAN_UCHAR" not in (a.get("ms") or []):
                     # un-counts the character just scanned (SCAN_UCHAR's own -1 merges a surrogate pair into one
                     # character and never concerns a terminator)
                     loads.append((b.id, i))
